@@ -42,7 +42,7 @@ def iterKmers (v : Cont c) : Option (List (St c)) :=
 /-- extension bytes -/
 def mkLeft (b : Nat) : Nat := (1 <<< b) % 256
 def mkRight (b : Nat) : Nat := (1 <<< (b + 4)) % 256
-def merge (l r : Nat) : Nat := (l &&& 0x0f) ||| (r &&& 0xf0)
+def merge (l r : Nat) : Nat := (l &&& Gen.extsMerge.1) ||| (r &&& Gen.extsMerge.2)
 
 def extsLoop (v : Cont c) (exts : Nat) (pos : Nat) (kmer : St c) (acc : List (St c × Nat)) : Option (List (St c × Nat)) :=
   if h : pos ≤ v.len then
